@@ -159,6 +159,29 @@ func (w *World) verifyFunc(p pkgT, cs *ContractSet, ct *Contract) (res *UnitResu
 		x.memFrame(ftype, fd, body)
 	}
 	x.sharedAppend(body)
+	// nocall: syntactic frame obligation, one per named callee (qualified as in call anchors)
+	for _, want := range ct.NoCall {
+		var sites []string
+		ast.Inspect(body, func(m ast.Node) bool {
+			if call, ok := m.(*ast.CallExpr); ok {
+				if fn := x.callee(call); fn != nil {
+					q := funcKey(fn)
+					if fn.Pkg() != nil {
+						q = fn.Pkg().Name() + "." + q
+					}
+					if q == want {
+						sites = append(sites, x.posOf(call))
+					}
+				}
+			}
+			return true
+		})
+		goal, txt := tTrue, "the function contains no call of "+want
+		if len(sites) > 0 {
+			goal, txt = tFalse, "the function must not call "+want+" but does at "+strings.Join(sites, ", ")
+		}
+		x.obls = append(x.obls, &Obligation{Name: x.fullKey + "#nocall:" + want, Kind: "frame", Func: x.fullKey, PC: tTrue, Goal: goal, syntactic: true, Pos: x.posOf(body), Text: txt})
+	}
 	// number loops in source pre-order (function literals excluded)
 	n := 0
 	ast.Inspect(body, func(m ast.Node) bool {
@@ -174,9 +197,31 @@ func (w *World) verifyFunc(p pkgT, cs *ContractSet, ct *Contract) (res *UnitResu
 		}
 		return true
 	})
-	for ord := range ct.Loops {
-		if ord >= n {
-			panic(unsupported{fmt.Sprintf("contract names loop %d but the function has %d loops (anchor lost)", ord, n)})
+	// A loop contract whose loop no longer exists (the function was restructured) is a failed obligation of its own,
+	// "#anchor:loop<k>"; the rest of the contract (pre / postconditions, ghost assertions, the loops that do exist) is still
+	// verified against the new body, so a restructuring that also changes the behaviour is reported by the postcondition it
+	// breaks and not only as a lost anchor.
+	{
+		var lost []int
+		for ord := range ct.Loops {
+			if ord >= n {
+				lost = append(lost, ord)
+			}
+		}
+		if len(lost) > 0 {
+			sort.Ints(lost)
+			ct2 := *ct
+			ct2.Loops = map[int]*LoopSpec{}
+			for ord, ls := range ct.Loops {
+				if ord < n {
+					ct2.Loops[ord] = ls
+				}
+			}
+			x.ct = &ct2
+			for _, ord := range lost {
+				x.obls = append(x.obls, &Obligation{Name: fmt.Sprintf("%s#anchor:loop%d", x.fullKey, ord), Kind: "anchor", Func: x.fullKey, PC: tTrue, Goal: tFalse, syntactic: true,
+					Pos: x.posOf(body), Text: fmt.Sprintf("contract names loop %d but the function has %d loops (anchor lost): the loop contract is not checked", ord, n)})
+			}
 		}
 	}
 	// variables assigned inside nested closures
@@ -353,9 +398,11 @@ func (w *World) verifyFunc(p pkgT, cs *ContractSet, ct *Contract) (res *UnitResu
 			dead = append(dead, a)
 		}
 	}
-	if len(dead) > 0 {
-		sort.Strings(dead)
-		panic(unsupported{x.fullKey + ": call anchor matches no call site: " + strings.Join(dead, ", ")})
+	// Each dead anchor is a failed obligation of its own ("#anchor:<anchor>"); the postconditions below are still checked.
+	sort.Strings(dead)
+	for _, a := range dead {
+		x.obls = append(x.obls, &Obligation{Name: fmt.Sprintf("%s#anchor:%s", x.fullKey, a), Kind: "anchor", Func: x.fullKey, PC: tTrue, Goal: tFalse, syntactic: true,
+			Pos: x.posOf(body), Text: "call anchor matches no call site (anchor lost): its ghost statements and assertions never ran: " + a})
 	}
 	env := x.specEnv(final)
 	for i := 0; i < nres && i < len(final.ret); i++ {
